@@ -524,19 +524,21 @@ func c05Exec(raw json.RawMessage) Result {
 			en := lg.Core().Enabled(zapcore.Level(l))
 			if call.Flip && call.FE == "Logger.Check" {
 				saved := make([]zapcore.Level, len(w.atomics))
+				ran := false
 				betweenCheckAndWrite = func() {
+					ran = true
 					for i, a := range w.atomics {
 						saved[i] = a.Level()
 						a.SetLevel(zapcore.FatalLevel + 1)
 					}
 				}
 				fe.call(lg, zapcore.Level(l), "m", w.fields(call.Fs))
-				if saved != nil && betweenCheckAndWriteRan(saved, w.atomics) {
+				betweenCheckAndWrite = nil
+				if ran {
 					for i, a := range w.atomics {
 						a.SetLevel(saved[i])
 					}
 				}
-				betweenCheckAndWrite = nil
 			} else {
 				fe.call(lg, zapcore.Level(l), "m", w.fields(call.Fs))
 			}
@@ -661,17 +663,4 @@ func c05Exec(raw json.RawMessage) Result {
 		Nontrivial: depth >= 2 && delivered > 0 && undelivered > 0,
 		Shape:      fmt.Sprintf("d%d/%s", bucket(depth), kindsString(kinds)),
 	}
-}
-
-// betweenCheckAndWriteRan: the hook ran iff every atomic now sits above Fatal (Check returned an entry).
-func betweenCheckAndWriteRan(saved []zapcore.Level, atomics []zap.AtomicLevel) bool {
-	if len(atomics) == 0 {
-		return false
-	}
-	for _, a := range atomics {
-		if a.Level() != zapcore.FatalLevel+1 {
-			return false
-		}
-	}
-	return true
 }
